@@ -1284,9 +1284,22 @@ def check_C20(A: Analysis, tier):
     opts = {}
     for c in ast.walk(pinit.node):
         if isinstance(c, ast.Call) and isinstance(c.func, ast.Attribute) and c.func.attr == "add_argument":
-            kw = {k.arg: k.value for k in c.keywords}
-            dest = kw["dest"].value if "dest" in kw and isinstance(kw["dest"], ast.Constant) else (c.args[0].value.lstrip("-") if c.args else None)
-            opts[dest] = {"type": norm(kw["type"]) if "type" in kw else None, "action": kw["action"].value if "action" in kw else None}
+            kw = {k.arg: k.value for k in c.keywords if k.arg}
+            dest = kw["dest"].value if "dest" in kw and isinstance(kw["dest"], ast.Constant) else (
+                c.args[0].value.lstrip("-") if c.args and isinstance(c.args[0], ast.Constant) and isinstance(c.args[0].value, str) else None)
+            if dest is not None:
+                opts[dest] = {"type": norm(kw["type"]) if "type" in kw else None,
+                              "action": kw["action"].value if "action" in kw and isinstance(kw["action"], ast.Constant) else None}
+    # table-driven registration: dict literals with a "dest" key anywhere in the parser class
+    pcls = A.p.classes.get("HashStoreParser")
+    for d in ast.walk(pcls) if pcls is not None else []:
+        if isinstance(d, ast.Dict) and any(isinstance(k, ast.Constant) and k.value == "dest" for k in d.keys):
+            kw = {k.value: v for k, v in zip(d.keys, d.values) if isinstance(k, ast.Constant)}
+            if isinstance(kw["dest"], ast.Constant):
+                opts[kw["dest"].value] = {"type": norm(kw["type"]) if "type" in kw else None,
+                                          "action": kw["action"].value if "action" in kw and isinstance(kw["action"], ast.Constant) else None}
+    if len(opts) < 10:
+        raise AnalysisError(f"argparse model: only {len(opts)} option declarations found in HashStoreParser")
 
     def binding(c):
         f = A.p.func(c["callee"])
